@@ -254,6 +254,10 @@ def generate(model: Model):
         for fn in (x for x in tree.body if isinstance(x, ast.FunctionDef) and x.name == "calc_divisions_for_align"):
             for st in (x for x in fn.body if isinstance(x, ast.If) and "dfs[0].divisions" in ast.unparse(x.test)):
                 yield "mutant", "revert:align-identical-divisions-dedup", "R02d", mod.rel, _drop_stmt(mod, st)
+        for cdef in (x for x in tree.body if isinstance(x, ast.ClassDef) and x.name in ("Binop", "AddPrefixSeries")):
+            for fn in (x for x in cdef.body if isinstance(x, ast.FunctionDef) and x.name == "_divisions"):
+                for st in (x for x in ast.walk(fn) if isinstance(x, ast.If) and "valid_divisions" in ast.unparse(x.test)):
+                    yield "mutant", f"revert:mapped-divisions-unchecked:{cdef.name}", "R06i", mod.rel, _drop_stmt(mod, st)
         for cdef in (x for x in tree.body if isinstance(x, ast.ClassDef) and x.name in ("Head", "Tail")):
             for fn in (x for x in cdef.body if isinstance(x, ast.FunctionDef) and x.name == "_simplify_up"):
                 for c_ in (x for x in ast.walk(fn) if isinstance(x, ast.Compare) and isinstance(x.ops[0], ast.In) and ast.unparse(x.comparators[0]) == "parent._parameters"):
